@@ -156,7 +156,6 @@ def fmtEK : EK → String
   | .missingSubcommand => "MissingSubcommand" | .invalidUtf8 => "InvalidUtf8" | .displayHelp => "DisplayHelp"
   | .displayHelpOnMissing => "DisplayHelpOnMissingArgumentOrSubcommand" | .displayVersion => "DisplayVersion"
   | .panic site => s!"PANIC {site.replace " " "_"}"
-  | .outOfFuel => "OUT-OF-FUEL"
 
 /-- `parse <depth> CMD … ARGV <n> tok…` -/
 def handleParse (args : List String) : String :=
@@ -170,8 +169,9 @@ def handleParse (args : List String) : String :=
         match n.toNat?, toks.mapM bytesOfHex with
         | some _, some argv =>
           match Command.tryGetMatchesFrom (fun _ _ => false) depth cmd argv with
-          | .ok m => "OK " ++ fmtMatches (Build.buildAll (depth + 2) cmd) m
-          | .error e => "ERR " ++ fmtEK e
+          | some (.ok m) => "OK " ++ fmtMatches (Build.buildAll (depth + 2) cmd) m
+          | some (.error e) => "ERR " ++ fmtEK e
+          | none => "OUT-OF-FUEL"
         | _, _ => "bad-op"
       | _ => "bad-cmd"
   | _ => "bad-op"
